@@ -492,6 +492,10 @@ class ConvRoundTrip(Stream):
             ["none", None, ["list", [["str", "Auto"]]], "dom"],
             ["int09", None, ["int", "99"], "ood"],
             ["int09", None, ["int", "-1"], "ood"],
+            # an item with a line break followed by QUOTED items long enough to pass the print width: the printed value is
+            # not wrapped after the multi-line item (a continuation backslash there would not be read as one)
+            ["strings", None, ["list", [["str", "first line\nsecond line"], ["str", "a second item that is long enough to pass the print width all by itself, blanks and all, really"],
+                                        ["str", "and a third item that is long as well, with more blanks"], ["str", "x y"]]], "dom"],
             # regression cases
             ["strings", None, ["list", []], "dom"],
             ["str", None, ["str", "None"], "dom"],
@@ -704,7 +708,8 @@ def text_kind(tree):
     if kind == "def":
         if len(body) == 0:
             return "empty-list-text"
-        if any("\n" in w[0] for w in body[:-1]):
+        # (quoted words may follow a word that spans lines; a bare word after it cannot be written)
+        if any("\n" in w[0] and any(x[1] == "n" for x in body[i + 1:]) for i, w in enumerate(body[:-1])):
             return "multiline-before-more"
         return None
     for k in body:
@@ -1116,6 +1121,10 @@ class ScopeRoundTrip(Stream):
              "src": "", "mut": [], "kind": "regress", "direct": True,
              "expect": ["scope", "", [["s", ["scope", "s", [["m", ["slist", ["none"], ["num", ["i", "1"]]]]]]]]]},
             {"m": [d("a", "int"), s("s", [d("b", "str"), d("c", "choicem")])], "src": "a = 5\ns.b = x y\n", "mut": [[["s", "b"], ["str", "q\"r"]]], "kind": "nomult"},
+            # text route with a strings value whose first item spans lines and whose further (quoted) items pass the print width
+            {"m": [d("a", "int"), s("s", [d("t", "strings")])], "src": "", "kind": "nomult",
+             "mut": [[["s", "t"], ["list", [["str", "first line\nsecond line"], ["str", "a second item that is long enough to pass the print width all by itself, blanks and all, really"],
+                                            ["str", "and a third item that is long as well, with more blanks"], ["str", "x y"]]]]]},
             {"m": [d("a", "ints", mult=True), s("s", [d("b", "bool")], mult=True)], "src": "a = 1 2\na = 3\ns { b = False }\ns { b = None }\n",
              "mut": [[["a"], ["mlist", [["list", [["int", "7"]]]]]], [["s"], ["mdup", 0]]], "kind": "mult"},
             {"m": [d("a", "str", mult=True, opt=True), s("s", [d("b", "int", mult=True)], mult=True, opt=True)], "src": "", "mut": [], "kind": "mult"},
